@@ -32,7 +32,7 @@ EXTRA_MODULES = {
     "C05": ["Proofs.C05Render", "Proofs.E2ERun", "Proofs.C19E2E"],
     "C07": ["Proofs.C07", "Proofs.C07Lines", "Proofs.C07Source", "Proofs.C05"],
     "C08": ["Proofs.C08", "Proofs.C08Source", "Proofs.ExprLexemes"],
-    "C10": ["Proofs.C10", "Proofs.C10Source", "Proofs.SrcRelRender", "Proofs.C19E2E"],
+    "C10": ["Proofs.C10", "Proofs.C10Source", "Proofs.SrcRelRender", "Proofs.SrcRelInclude", "Proofs.SrcShiftSource", "Proofs.C19E2E"],
     "C11": ["Proofs.C11", "Proofs.C11Source", "Proofs.SrcLoop"],
     "C13": ["Proofs.RunLemmas", "Proofs.HyphenFace", "Proofs.C13Source", "Proofs.HyphenSource", "Proofs.HyphenSourceCompile", "Proofs.C19E2E"],
     "C12": ["Proofs.C12", "Proofs.C12Source"],
